@@ -63,6 +63,7 @@ func (this *sharedGroup) processSnapshot(data []byte) error {
 		return err
 	}
 
+	listedNodes := make(map[uint64]struct{})
 	for proxyName, proxySnapshot := range snapshot.GetProxySnapshots() {
 		if strings.HasPrefix(proxyName, nodeAddressSnapshotPrefix) {
 			nodeId, err := strconv.ParseUint(strings.TrimPrefix(proxyName, nodeAddressSnapshotPrefix), 10, 64)
@@ -70,11 +71,22 @@ func (this *sharedGroup) processSnapshot(data []byte) error {
 				return err
 			}
 			this.group.transport.addNodeAddress(nodeId, string(proxySnapshot))
+			listedNodes[nodeId] = struct{}{}
 			continue
 		}
 		proxy := this.proxies[proxyName]
 		if err := proxy.processSnapshotFn(proxySnapshot); err != nil {
 			return err
+		}
+	}
+
+	// The snapshot holds the whole address book: the entries that removed a
+	// node were compacted away with the rest of the log it replaces.
+	if len(listedNodes) > 0 {
+		for nodeId := range this.group.transport.clusterConn.Nodes() {
+			if _, listed := listedNodes[nodeId]; !listed && nodeId != this.group.transport.NodeId() {
+				this.group.transport.removeNodeAddress(nodeId)
+			}
 		}
 	}
 	return nil
